@@ -182,17 +182,23 @@ func (m *model) next(st mstate, now time.Time) (mstate, time.Time, bool, bool) {
 // grey means a later, not yet started unlimited part whose window has elapsed
 // (negative and exact are both accepted).
 func (m *model) left(st mstate, now time.Time) (rem int64, strict, grey bool) {
+	// drained: every part before j has handed out all it had (known parts) or is over (unlimited
+	// parts whose window has elapsed): then part j is the one in force whether or not a Next call
+	// has made the switch, and an elapsed unlimited part j is finished, not "unknown".
+	drained := true
 	for j := st.c; j < len(m.parts); j++ {
 		p := m.parts[j]
 		if p.unlimited {
 			if !st.started {
 				strict = true
+				drained = false
 				continue
 			}
 			f := m.startOf(st, j).Add(p.dur)
 			if now.Before(f) {
 				strict = true
-			} else if j > st.c {
+				drained = false
+			} else if j > st.c && !drained {
 				grey = true
 			}
 			continue
@@ -200,9 +206,13 @@ func (m *model) left(st mstate, now time.Time) (rem int64, strict, grey bool) {
 		if j == st.c {
 			if p.n > st.i {
 				rem += p.n - st.i
+				drained = false
 			}
 		} else {
 			rem += p.n
+			if p.n > 0 {
+				drained = false
+			}
 		}
 	}
 	return
